@@ -61,6 +61,24 @@ def rand_dfa_def(rng, nmax=6, alphabet=None, partial=None, names=None, density=N
                 final_states=finals, allow_partial=partial)
 
 
+def add_dfa_stray_rows(rng, d):
+    """The same DFA with one or two extra transition rows keyed by names that are not states (validate() accepts them;
+    they belong to no state, so language and answers are unchanged).  Names the library picks itself for implicit
+    states are favoured: -1, -2 (trap ids), the least unused natural number."""
+    d = dict(d)
+    d["transitions"] = {q: dict(row) for q, row in d["transitions"].items()}
+    states = set(d["states"])
+    cand = [x for x in (-1, -2, next(i for i in range(1000) if i not in states), 7, "stray", ("s", 0)) if x not in states]
+    targets = sorted(states, key=repr)
+    for name in rng.sample(cand, rng.choice([1, 1, 2])):
+        if d.get("allow_partial", False) and rng.random() < 0.5:
+            row = {a: rng.choice(targets) for a in d["input_symbols"] if rng.random() < 0.7}
+        else:
+            row = {a: rng.choice(targets) for a in d["input_symbols"]}
+        d["transitions"][name] = row
+    return d
+
+
 def rand_nfa_def(rng, nmax=5, alphabet=None, names=None, p_eps=None):
     """Random NFA definition: epsilon edges and cycles, states without a row, empty target
     sets, unreachable parts."""
